@@ -273,8 +273,26 @@ class CiscoFormatter(BlockExitFormatter):
     def __init__(self, indent="  "):
         super().__init__("exit", indent)
 
+    @staticmethod
+    def _closed_at_same_indent(line: str, block_exit: str, following: List[str]) -> bool:
+        """
+        A device prints the body of a section that has its own block exit string
+        (address-family ... exit-address-family) at the indent of the section line,
+        and only such a section has to be shifted.  A section whose body is
+        already indented (annet's own output) or which is never closed is left
+        to the offside rule.
+        """
+        level = _parse_indent(line)
+        for i, next_line in enumerate(following):
+            next_level = _parse_indent(next_line)
+            if next_level < level or (i == 0 and next_level > level):
+                return False
+            if next_level == level and next_line.strip() == block_exit:
+                return True
+        return False
+
     def _split_indent(
-        self, line: str, indent: int, block_exit_strings: List[str]
+        self, line: str, indent: int, block_exit_strings: List[str], following: List[str] = ()
     ) -> Tuple[List[str], int]:
         """
         The small helper calculates indent shift based on block exit string.
@@ -306,6 +324,8 @@ class CiscoFormatter(BlockExitFormatter):
             return block_exit_strings, indent
         if block_exit_wrapped[1] == self._block_exit:
             return block_exit_strings, indent
+        if not self._closed_at_same_indent(line, block_exit_wrapped[1], following):
+            return block_exit_strings, indent
 
         indent += 1
         block_exit_strings.append(block_exit_wrapped[1])
@@ -317,7 +337,7 @@ class CiscoFormatter(BlockExitFormatter):
         tree = self.split_remove_spaces(text)
         for i, item in enumerate(tree):
             block_exit_strings, new_indent = self._split_indent(
-                item, additional_indent, block_exit_strings
+                item, additional_indent, block_exit_strings, tree[i + 1:]
             )
             tree[i] = f"{' ' * additional_indent}{item}"
             additional_indent = new_indent
